@@ -816,6 +816,12 @@ func splitInlineBox(context *layoutContext, box_ Box, positionX, maxX, bottomSpa
 	rightSpacing := box.PaddingRight.V() + box.MarginRight.V() + box.BorderRightWidth.V()
 	contentBoxLeft := positionX
 
+	// The children are laid out from positionX, then translated by leftSpacing
+	// (see translationNeeded below): this room is not available to them.
+	if box.Style.GetBoxDecorationBreak() == "clone" || (isStart && box.Style.GetDirection() == "ltr") {
+		maxX -= leftSpacing
+	}
+
 	if box.Style.GetPosition().String == "relative" {
 		absoluteBoxes = &[]*AbsolutePlaceholder{}
 	}
